@@ -405,3 +405,14 @@ func axP384OrderBits(v Mathint) {}
 //@ lemma trusted
 //@ ensures a >= 0 && b >= 0 ==> ECMulX(c, a, ECBaseX(c, b), ECBaseY(c, b)) == ECBaseX(c, (a*b)%ECOrder(c)) && ECMulY(c, a, ECBaseX(c, b), ECBaseY(c, b)) == ECBaseY(c, (a*b)%ECOrder(c))
 func AxECMulBase(c elliptic.Curve, a, b Mathint) {}
+
+// Modular arithmetic facts about products, which the verifier keeps uninterpreted (ASSUMED: elementary number
+// theory; called explicitly by the lemmas that need them).
+//
+//@ lemma trusted
+//@ ensures m > 1 && Invertible(b, m) && a >= 0 ==> (((a*b)%m)*ModInv(b, m))%m == a%m
+func AxModCancel(a, b, m Mathint) {}
+
+//@ lemma trusted
+//@ ensures m > 0 && a >= 0 && b >= 0 && c >= 0 ==> (((a*b)%m)*c)%m == (((a*c)%m)*b)%m
+func AxModMulSwap(a, b, c, m Mathint) {}
